@@ -78,6 +78,15 @@ class SrcStream:
             raise OSError('not seekable')
         return self.pos
 
+    def fileno(self):
+        # like io.BytesIO: the attribute exists; most streams have no descriptor.  A decompressing
+        # or otherwise wrapping stream (gzip.GzipFile, ...) has one, of a file whose size is not the
+        # stream's length.
+        if getattr(self, 'decoy_fd', None) is None:
+            import io
+            raise io.UnsupportedOperation('fileno')
+        return self.decoy_fd
+
     def close(self):
         pass
 
@@ -217,6 +226,7 @@ def make_subscriber(env, ti, spec):
                 raise exc
 
         def on_progress(self, future, bytes_transferred, **kw):
+            env.point(('cb', 'progress', ti))        # a user callback takes time: other parts go on meanwhile
             env.log('cb-progress', ti=ti, sub=spec['id'], v=bytes_transferred)
             if spec.get('raise_in') == 'progress' and not spec.get('_raised'):
                 spec['_raised'] = True
@@ -366,6 +376,8 @@ def gen_scenario(rng, focus=None):
                 t['checksum'] = 'CRC32'
             t['rewinds'] = rng.choice([0, 0, 0, 1])
             t['sign_reads'] = rng.random() < 0.3
+            if t['source'] == 'seekable' and rng.random() < 0.5:
+                t['wraps_fd'] = rng.choice(['shorter', 'longer'])
         elif kind == 'download':
             t['dest'] = rng.choice(['path', 'seekable', 'nonseekable', 'nonseekable'])
             if t['dest'] == 'path':
@@ -415,6 +427,9 @@ def gen_scenario(rng, focus=None):
         cancel = {'kind': 'exit-exc', 'exc': rng.choice(['value', 'interrupt', 'empty-msg']), 'after_steps': rng.choice([0, 2, 10, 40])}
     elif r < 0.42:
         cancel = {'kind': 'interrupt-result', 'nth_wait': rng.choice([0, 0, 1])}
+    elif r < 0.47:
+        # Ctrl-C while shutdown() / the with-block exit is waiting for the transfers
+        cancel = {'kind': 'interrupt-exit', 'how': rng.choice(['with', 'with', 'shutdown']), 'nth_wait': rng.choice([0, 0, 1])}
     sc = {'cfg': cfg, 'transfers': transfers, 'faults': faults, 'cancel': cancel,
           'mode': rng.choice(['uniform', 'sticky', 'sticky', 'pct', 'stall', 'stall']), 'sched_seed': rng.randrange(1 << 30),
           'fresh_after': rng.random() < 0.3}
@@ -623,6 +638,12 @@ def _run_inner2(sc, sch, sh, env, run):
                 sp['fileobj'] = p
             else:
                 sp['fileobj'] = SrcStream(env, ti, data, t['source'] == 'seekable', t.get('caps', []), src_fault)
+                if t.get('wraps_fd') and t['source'] == 'seekable':
+                    decoy = os.path.join(tmpdir, 'decoy%d' % ti)
+                    with open(decoy, 'wb') as f:
+                        f.write(b'z' * ((2 * len(data) + 7) if t['wraps_fd'] == 'longer' else (len(data) // 3 if len(data) >= 3 else len(data) + 2)))
+                    sp['decoy_file'] = open(decoy, 'rb')
+                    sp['fileobj'].decoy_fd = sp['decoy_file'].fileno()
         elif t['kind'] == 'download':
             fake.objects[('b', 'src%d' % ti)] = data
             if t['dest'] == 'path':
@@ -702,6 +723,29 @@ def _run_inner2(sc, sch, sh, env, run):
                         raise UserExc('with-block')
                 except (UserExc, KeyboardInterrupt):
                     pass
+                env.shutdown_returned_at = env.log('shutdown-returned')
+                for ti, f in futs.items():
+                    collect(ti, f)
+                return
+            if cancel and cancel['kind'] == 'interrupt-exit':
+                try:
+                    if cancel['how'] == 'with':
+                        with tm:
+                            for ti in range(len(specs)):
+                                futs[ti] = submit(tm, ti)
+                                run.futures[ti] = futs[ti]
+                            sh.interrupt_plan[('main', sh.wait_counts.get('main', 0) + cancel['nth_wait'])] = KeyboardInterrupt()
+                            env.log('exit-normally-then-interrupt')
+                    else:
+                        for ti in range(len(specs)):
+                            futs[ti] = submit(tm, ti)
+                            run.futures[ti] = futs[ti]
+                        sh.interrupt_plan[('main', sh.wait_counts.get('main', 0) + cancel['nth_wait'])] = KeyboardInterrupt()
+                        env.log('shutdown-call', cancel=False)
+                        tm.shutdown()
+                except KeyboardInterrupt:
+                    env.log('interrupt-propagated')
+                sh.interrupt_plan.clear()
                 env.shutdown_returned_at = env.log('shutdown-returned')
                 for ti, f in futs.items():
                     collect(ti, f)
